@@ -347,7 +347,7 @@ def run_canaries(scratch, unit, res):
     return {"canaries": n, "vacuous": vac, "wall_s": wall}
 
 
-def run_units(scratch, units, prop, tier):
+def run_units(scratch, units, prop, tier, canaries=True):
     """units: list of (unit name, [clause prefixes that count for prop besides '<prop>.'])."""
     out = {"failures": [], "tool": [], "vacuous": [], "units": [], "cmds": [], "trusted": [], "assumptions": [],
            "obligations": 0, "discharged": 0, "samples": [], "other_prop": []}
@@ -365,7 +365,7 @@ def run_units(scratch, units, prop, tier):
         out["failures"] += mine
         out["other_prop"] += others
         out["tool"] += res["tool"] + [dict(f, kind="tool", description="unattributed: " + f["description"]) for f in unattributed]
-        can = run_canaries(scratch, unit, res)
+        can = run_canaries(scratch, unit, res) if canaries else {"vacuous": [], "canaries": 0}
         out["vacuous"] += can["vacuous"]
         out["cmds"].append("xtract <snapshot of /repo> contracts/%s.vrs unit.rs unit.manifest.json && %s" % (unit, res["cmd"]))
         out["trusted"] += res["trusted"]
